@@ -203,6 +203,23 @@ def run(ctx, crate):
                 ok = any(s.args[0] == rep and T.is_call(s.args[1], gen.rsplit("::", 1)[-1]) and s.args[1][2] and s.args[1][2][0][0] == "param" for s in pushes)
                 obs.append(Ob("R11.concat", gr.path, "%s block appended to the written buffer" % cat, ok,
                               expected="push_str(report, %s(map))" % gen.rsplit("::", 1)[-1]))
-            stray = [s for s in pushes if s.args[0] == rep and R.lit(s.args[1]) not in (None, "\n\n")]
-            obs.append(Ob("R11.concat", gr.path, "nothing else is written but blank separators", not stray, found=[R.lit(s.args[1]) for s in stray] or "none"))
+            # whatever else goes into the written buffer is constant text none of whose lines can be read as an entry or as the start of a list
+            # (blank separators, a notice, a footer): anything computed, or a constant with an entry-shaped line, would be read back as a finding
+            gens = tuple(g_.rsplit("::", 1)[-1] for g_ in R.GENERATORS.values())
+            stray = []
+            for s in pushes:
+                if s.args[0] != rep:
+                    continue
+                a = s.args[1]
+                if any(T.is_call(a, g_) for g_ in gens):
+                    continue
+                pieces = [R.lit(p_) for p_ in R.flatten(a)]
+                if all(p_ is not None for p_ in pieces):
+                    text = "".join(pieces)
+                    if not [ln for ln in text.split("\n") if ENTRY_RE.match(ln) or ln.startswith("### Lines")]:
+                        continue
+                    stray.append("entry-shaped constant %r" % text[:60])
+                else:
+                    stray.append("computed text %s" % show(a)[:80])
+            obs.append(Ob("R11.concat", gr.path, "nothing else is written but constant text that cannot be read as an entry", not stray, found=stray or "none"))
     return obs
